@@ -243,7 +243,8 @@ def m4_generation_wiring(ctx) -> None:
     go = P.need_method("AbstractRule", "generate_objects_of_size", own=True)
     from ..core import pattern as PT
     pt = PT.find_all(go.node, "_M_pt = tuple((parameters[_M_k] for _M_k in self.comb_class.extra_parameters))")
-    if pt and PT.find_all(go.node, "_M_o[_M_pt]", {"_M_pt": pt[0][1]["_M_pt"]}):
+    direct = PT.find_all(go.node, "_E_o[tuple((parameters[_M_k] for _M_k in self.comb_class.extra_parameters))]")
+    if direct or (pt and PT.find_all(go.node, "_E_o[_M_pt]", {"_M_pt": pt[0][1]["_M_pt"]})):
         ctx.ok("M4", "generated objects are selected by the parent's own parameter tuple")
     else:
         ctx.violation("M4", go.node, "generate_objects_of_size must index the level by tuple(parameters[k] for k in self.comb_class.extra_parameters)", construct="AbstractRule.generate_objects_of_size")
